@@ -152,24 +152,32 @@ fn c04_vcp_fixed_frame() {
     core::mem::forget(r);
 }
 
-/// The message-stream loop on a 28 + 48-byte input whose message header (size fields included) is
-/// free and whose type is 31 with one block of free ASCII name: value or error, and the loop ends
-/// (every iteration must consume at least one header).
+/// The message-stream loop on a 76-byte stream holding one type-31 message with one block: the
+/// message header's size fields (segment size, segment count, segment number), the block type and
+/// the (ASCII) block name are free, everything else is zero.  Value or error, and the loop ends:
+/// every iteration must consume a header (unwinding assertions).
 #[kani::proof]
 #[kani::unwind(12)]
 #[kani::stub(alloc::fmt::format, crate::stubs::fmt_format)]
 #[kani::stub(<[u8; 4] as core::convert::TryFrom<&[u8]>>::try_from, crate::stubs::array_try_from)]
 fn c04_messages_short_stream() {
-    let mut b: [u8; 28 + 32 + 4 + 12] = kani::any();
+    let mut b = [0u8; 28 + 32 + 4 + 12];
+    let f: [u8; 10] = kani::any();
+    b[12] = f[0];
+    b[13] = f[1]; // segment size
     b[15] = 31;
+    b[24] = f[2];
+    b[25] = f[3];
+    b[26] = f[4];
+    b[27] = f[5]; // segment count / number
     let h = 28;
-    b[h + 30] = 0;
     b[h + 31] = 1;
-    b[h + 32] = 0;
-    b[h + 33] = 0;
-    b[h + 34] = 0;
     b[h + 35] = 36;
-    kani::assume(b[h + 37] < 0x80 && b[h + 38] < 0x80 && b[h + 39] < 0x80);
+    b[h + 36] = f[6];
+    kani::assume(f[7] < 0x80 && f[8] < 0x80 && f[9] < 0x80);
+    b[h + 37] = f[7];
+    b[h + 38] = f[8];
+    b[h + 39] = f[9];
     let mut c = Cursor::new(&b[..]);
     let r = decode_messages(&mut c);
     wit!(r.is_err());
